@@ -270,6 +270,20 @@ def sector_failures(sr, sym, idescs, charge, ferm, static, with_fill):
                     continue  # a refusal of the argument form is not a wrong answer
                 if yg.ndim != len(idescs) or set(yg.blocks) != se:
                     f.append((f"C17/from_fill_fn[indices as {form}]/{sym}/stored-sectors", f"ndim {yg.ndim} sectors {sorted(yg.blocks)[:4]} vs {sorted(se)[:4]} ({len(idescs)} indices)"))
+            if len(idescs) <= 2 and not static and sym in ("Z2", "Z4", "U1"):
+                # call history: the generic class was just used with another symmetry on the very same index structure
+                # and total charge (wherever the labels are valid charges of both groups)
+                labels = {c for t in tables for c in t} | {charge}
+                for other in ("Z2", "Z4", "U1"):
+                    if other == sym or not all(G.valid(other, c) for c in labels):
+                        continue
+                    try:
+                        klass.random(tuple(make_index(d) for d in idescs), charge=charge, seed=0, **dict(kw, symmetry=other))
+                        zh = klass.random(tuple(make_index(d) for d in idescs), charge=charge, seed=0, **kw)
+                    except Exception:
+                        continue
+                    if set(zh.blocks) != se:
+                        f.append((f"C17/random[after the same call with {other}]/{sym}/stored-sectors", f"{sorted(zh.blocks)[:4]} vs {sorted(se)[:4]}"))
             if len(idescs) <= 2:
                 zg = klass.random((make_index(d) for d in idescs), charge=charge, seed=0, **kw)
                 if zg.ndim != len(idescs) or set(zg.blocks) != se:
